@@ -33,7 +33,7 @@ ASSUMPTIONS = ["jupyter_server / jinja2 stubs (vp/../stubs) so the real handlers
 SHRINK_KEYS = ["requests"]
 SHRINK_EVALS = 60
 
-MODES = ["plain", "difftool_names", "difftool_blobs", "mergetool_out", "mergetool_noout"]
+MODES = ["plain", "difftool_names", "difftool_blobs", "mergetool_out", "mergetool_out", "mergetool_noout", "mergetool_inplace", "mergetool_out_newdir"]
 
 
 def budget(tier):
@@ -41,7 +41,18 @@ def budget(tier):
 
 
 def valid(case):
-    return len(case["requests"]) >= 1
+    # (keeps the shrinker inside the request grammar: the "valid" kinds name served notebooks)
+    for rq in case["requests"]:
+        if not isinstance(rq, list) or not rq:
+            return False
+        if rq[0] in ("diff", "merge") and not (isinstance(rq[1], dict) and all(v in FILES for v in rq[1].values())
+                                                and set(rq[1]) == ({"base", "remote"} if rq[0] == "diff" else {"base", "local", "remote"})):
+            return False
+        if rq[0] == "rewrite" and not (len(rq) == 3 and rq[1] in FILES and rq[2] in (0, 1, 2)):
+            return False
+        if rq[0] in ("store", "store_surrogate") and not (isinstance(rq[1], dict) and rq[1].get("merged") in (0, 1, 2)):
+            return False
+    return len(case["requests"]) >= 1 and len(case["notebooks"]) == 3
 
 
 def precheck(case):
@@ -64,7 +75,7 @@ def program(draw):
     reqs = []
     for _ in range(draw(st.integers(3, 12))):
         k = draw(st.sampled_from(["diff", "diff", "merge", "merge", "store", "store", "close", "bad_json", "missing_key", "bad_file", "unknown_path",
-                                  "get_api", "store_extra", "store_bad_merged", "wrong_prefix"]))
+                                  "get_api", "store_extra", "store_bad_merged", "store_unencodable", "wrong_prefix", "rewrite"]))
         if k == "diff":
             reqs.append(["diff", {"base": draw(st.sampled_from(FILES)), "remote": draw(st.sampled_from(FILES))}])
         elif k == "merge":
@@ -75,6 +86,12 @@ def program(draw):
             extra = draw(st.sampled_from([{"path": "../evil.ipynb"}, {"outputfilename": "evil.ipynb"}, {"path": "/tmp/evil.ipynb", "fn": "x"},
                                           {"outputfilename": "../outside.ipynb"}]))
             reqs.append(["store", dict({"merged": draw(st.integers(0, 2))}, **extra)])
+        elif k == "rewrite":
+            # another program rewrites one of the served notebooks between two requests
+            reqs.append(["rewrite", draw(st.sampled_from(FILES)), draw(st.integers(0, 2))])
+        elif k == "store_unencodable":
+            # well-formed JSON ("\\ud800" escape) whose notebook holds a lone surrogate: it cannot be written as UTF-8
+            reqs.append(["store_surrogate", {"merged": draw(st.integers(0, 2))}, draw(st.sampled_from(["source", "metadata"]))])
         elif k == "store_bad_merged":
             reqs.append(["store_raw", {"merged": draw(st.sampled_from([5, "x", None, [], [1, 2]]))}])
         elif k == "close":
@@ -93,7 +110,7 @@ def program(draw):
             reqs.append(["noprefix", draw(st.sampled_from(["diff", "merge", "store", "closetool"])), {"base": "a.ipynb", "local": "a.ipynb", "remote": "b.ipynb"}])
         else:
             reqs.append(["get", draw(st.sampled_from(["diff", "merge", "store", "closetool"]))])
-    return {"notebooks": nbs, "mode": mode, "closable": draw(st.booleans()), "base_url": draw(st.sampled_from(["/", "/", "/pre/x/"])), "requests": reqs}
+    return {"notebooks": nbs, "mode": mode, "closable": draw(st.booleans()), "base_url": draw(st.sampled_from(["/", "/", "/pre/x/", "/user/j.doe+lab/"])), "requests": reqs}
 
 
 def strategy(tier):
@@ -106,7 +123,9 @@ class NamedBlob(io.StringIO):
 
 def tree_hash(root):
     h = {}
-    for d, _, fs in os.walk(root):
+    for d, ds, fs in os.walk(root):
+        for x in ds:
+            h[os.path.relpath(os.path.join(d, x), root) + "/"] = "dir"
         for f in fs:
             p = os.path.join(d, f)
             with open(p, "rb") as fh:
@@ -172,6 +191,11 @@ async def _session(case, out, top, cwd):
         params["mergetool_args"] = {"base": "a.ipynb", "local": "b.ipynb", "remote": "c.ipynb"}
         if mode == "mergetool_out":
             outfn = "merged_out.ipynb"
+        elif mode == "mergetool_inplace":
+            outfn = "b.ipynb"                          # `nbmergetool base mine theirs mine`: the result replaces local
+        elif mode == "mergetool_out_newdir":
+            outfn = "results/merged_out.ipynb"         # a directory that does not exist (yet)
+        if outfn:
             params["outputfilename"] = outfn
     shutdown = {"requested": 0}
 
@@ -225,6 +249,12 @@ async def _session(case, out, top, cwd):
             out.count("requests")
             out.count("req_" + kind)
             malformed = False
+            if kind == "rewrite":
+                if mode != "difftool_blobs":           # (blob sessions hold their contents from start-up)
+                    nbformat.write(to_nb(case["notebooks"][rq[2]]), os.path.join(cwd, rq[1]))
+                    first_answers.clear()
+                    out.count("served_file_rewritten_between_requests")
+                continue
             if kind == "diff":
                 body = rq[1]
                 code, data = await send("/api/diff", body)
@@ -269,6 +299,24 @@ async def _session(case, out, top, cwd):
                     if key in first_answers and first_answers[key] != data:
                         out.fail("later_requests_answered_as_first", "merge_answer_changed", "after error" if had_error else "no error before", detail=detail)
                     first_answers.setdefault(key, data)
+            elif kind == "store_surrogate":
+                import copy as _copy
+                nbx = _copy.deepcopy(case["notebooks"][rq[1]["merged"]])
+                if rq[2] == "source" and nbx["cells"]:
+                    nbx["cells"][0]["source"] += "x = '\ud800'\n"
+                else:
+                    nbx["metadata"]["title"] = "lone \udc00 surrogate"
+                code, data = await send("/api/store", {"merged": nbx})
+                after = tree_hash(top)
+                changed = sorted(k for k in set(before) | set(after) if before.get(k) != after.get(k))
+                out.count("store_requests_with_unencodable_text")
+                if code >= 400:
+                    # refused: then nothing on disk may have changed
+                    malformed = True
+                    if changed:
+                        out.fail("malformed_request", "changed_disk", "store refused (unencodable text) but: " + changed[0], detail=detail)
+                elif [c for c in changed if c != (os.path.join("served", outfn) if outfn else None)]:
+                    out.fail("store_endpoint", "wrote_outside_the_output_file", changed[0], detail=detail)
             elif kind in ("store", "store_raw"):
                 body = dict(rq[1])
                 good = kind == "store"
@@ -291,7 +339,14 @@ async def _session(case, out, top, cwd):
                         out.fail("store_endpoint", "wrote_outside_the_output_file", other[0], detail=detail)
                     if good:
                         n_valid += 1
-                        if not (200 <= code < 300):
+                        if 200 <= code < 300:
+                            first_answers.clear()          # the output file may be one of the session's inputs
+                        if not (200 <= code < 300) and mode == "mergetool_out_newdir" and not os.path.isdir(os.path.join(cwd, "results")):
+                            # the output directory does not exist: a refusal is acceptable, but then nothing may change (directories included)
+                            out.count("store_refused_(output_directory_missing)")
+                            if changed:
+                                out.fail("malformed_request", "changed_disk", "store refused (no output directory) but: " + changed[0], detail=detail)
+                        elif not (200 <= code < 300):
                             out.fail("store_endpoint", "valid_store_refused", "status %d" % code, detail=detail)
                         else:
                             want = plain(nbformat.reads(json.dumps(body["merged"]), as_version=4))
